@@ -645,17 +645,30 @@ def norm_stmt(s):
             rest = _stmts(s["e"])
             s["e"] = None
             return [s] + rest
-        # S10: if (c) x = a; else x = b;  ->  x = c ? a : b      (x a plain variable / member)
+        # S10: if (c) { x = a; y = p; } else { x = b; y = q; }  ->  x = c ? a : b; y = c ? p : q;   (x, y plain variables / members
+        # that c does not read)
         if s.get("e") is not None:
             tb, eb = _stmts(s.get("t")), _stmts(s.get("e"))
-            if len(tb) == 1 and len(eb) == 1 and all(isinstance(x, dict) and x.get("k") == "Expr" for x in (tb[0], eb[0])):
-                a1, a2 = _strip(tb[0].get("e")), _strip(eb[0].get("e"))
-                if isinstance(a1, dict) and isinstance(a2, dict) and a1.get("k") == "Assign" and a2.get("k") == "Assign" and a1.get("op") == "=" and a2.get("op") == "=" \
-                        and _pure_container(a1.get("l")) and _same(a1["l"], a2["l"]):
-                    cond = {"k": "Cond", "c": s["c"], "a": a1["r"], "e": a2["r"], "loc": s.get("loc"), "t": a1.get("t"), "sz": a1.get("sz"), "synth": True}
-                    na = dict(a1)
-                    na["r"] = norm_expr(cond)
-                    return [{"k": "Expr", "e": na, "loc": s.get("loc"), "synth": True}]
+            if tb and len(tb) == len(eb) and len(tb) <= 4 and all(isinstance(x, dict) and x.get("k") == "Expr" for x in tb + eb):
+                pairs = []
+                for x1, x2 in zip(tb, eb):
+                    a1, a2 = _strip(x1.get("e")), _strip(x2.get("e"))
+                    if isinstance(a1, dict) and isinstance(a2, dict) and a1.get("k") == "Assign" and a2.get("k") == "Assign" and a1.get("op") == "=" and a2.get("op") == "=" \
+                            and _pure_container(a1.get("l")) and _same(a1["l"], a2["l"]):
+                        pairs.append((a1, a2))
+                    else:
+                        pairs = None
+                        break
+                ctext = _txt(s["c"])
+                if pairs and not any(_txt(a1["l"]) in ctext for a1, _ in pairs):
+                    out = []
+                    for a1, a2 in pairs:
+                        import copy
+                        cond = {"k": "Cond", "c": copy.deepcopy(s["c"]) if out else s["c"], "a": a1["r"], "e": a2["r"], "loc": s.get("loc"), "t": a1.get("t"), "sz": a1.get("sz"), "synth": True}
+                        na = dict(a1)
+                        na["r"] = norm_expr(cond)
+                        out.append({"k": "Expr", "e": na, "loc": a1.get("loc") or s.get("loc"), "synth": True})
+                    return out
         # S13: if (c) b = true;  ->  b |= c ;   if (c) b = false;  ->  b &= !c      (b a bool variable / member)
         if s.get("e") is None:
             tb = _stmts(s.get("t"))
